@@ -9,19 +9,19 @@ CLAIMED = {
  "C03": ("families core/cap/fut: logical-time capacity inequality at every accepted send, identical payload handed back on refusal, exact window N at quiescence", "5 C03"),
  "C04": ("family slowclone: payload self-check (id/inverse/ledger liveness) at the start and end of every clone and view, with the clone/view suspended in the middle while the writer wraps", "5 C04"),
  "C06": ("families core/shared: after all threads joined, drain / fill-to-Full / drain twice and compare counts and identities with the model state computed from the history", "5 C06"),
- "C07": ("family disconnect: every end-of-stream result checked against sender lifetimes and accepted values; the end must be stable", "5 C07"),
- "C08": ("family blockrecv (quota rule): quiescence detector - deadlock (exact, engine-reported) or no-progress livelock under fair scheduling with a consumer inside a blocking receive", "5 C08"),
- "C14": ("family futpark (quota rule) under the simulated futures executor: a task parked forever at deadlock / no-progress livelock", "5 C14"),
+ "C07": ("family disconnect: every end-of-stream result checked against sender lifetimes and accepted values; the end must be stable; consumers leaving a shared stream around the disconnect; a run that cannot finish with no live sender and a consumer still waiting is end_never_reported", "5 C07"),
+ "C08": ("family blockrecv (quota rule, incl. a lagging stream abandoned by all its consumers): quiescence detector - deadlock (exact, engine-reported) or no-progress livelock under fair scheduling with a consumer inside a blocking receive", "5 C08"),
+ "C14": ("family futpark (quota rule, incl. a lagging stream abandoned by all its consumers while sink tasks are parked) under the simulated futures executor: a task parked forever at deadlock / no-progress livelock", "5 C14"),
  "C09": ("engine seq: one simulated thread, generated call sequences over all twelve handle types compared operation by operation with the reference model (return values, handed-back payload identity, no panic, every call returns)", "5 C09"),
  "C13": ("seq.norecv (all orders of dropping receivers, then every send entry point) + concurrent family norecv (last receiver's drop racing retrying / spinning / parking senders): Disconnected with the identical payload, sink future resolves, no send loop hangs", "5 C13"),
  "C15": ("seq.fut (sequential Sink/Stream histories against the model, incl. fresh never-wrapped queues), fut.direct (direct try_recv/recv on futures receivers under concurrency; C01-C03 oracles through futures handles), fut.solo (poll / start_send run with every other thread frozen: bounded own steps, never blocks)", "5 C15"),
  "C18": ("families core.solo / shared.solo on busy/yielding queues: a single try_send / try_recv / try_recv_view with every other thread frozen at an arbitrary operation must return within 2000 own steps and never block on a lock", "5 C18"),
  "C05": ("seq.ledger + concurrent family teardown (the scheduler decides whose drop is last and what is in flight) + core: per-instance birth/clone/drop ledger, every payload and clone dropped exactly once; the hazardous sub-family `mpmc second stream` is generated only here (known finding D11)", "5 C05"),
- "C10": ("families addstream.sole and addstream.sibling: the new stream drained by a freshly spawned thread must be a gap-free suffix starting inside the interval the parent position swept during the call; C01/C02/C03 oracles and the C06 probe on all other streams; the hazardous sub-family addstream.sibling is generated only here (known finding D10)", "5 C10"),
+ "C10": ("families addstream.sole and addstream.sibling: the new stream drained by a freshly spawned thread must be a gap-free suffix starting inside the interval the parent position swept during the call; C01/C02/C03 oracles and the C06 probe on all other streams (addstream.sibling = other consumers of the parent stream running during the call; defect D10 found there was repaired by fix: f489833)", "5 C10"),
  "C11": ("family removal: isolated sends after a removal must equal the model (refused iff the slowest remaining stream has N outstanding), producers in retry loops must finish (quiescence detector), remaining streams pass C01-C03 and the C06 probe, unsubscribe's bool checked against handle lifetimes", "5 C11"),
  "C12": ("family churn: sender count 1->2->1 and consumers per stream 1->2->1 by clone / drop / unsubscribe / into_single / into_multi with clones handed to freshly spawned threads, C01+C02+C03 oracles and C06 probe unchanged", "5 C12"),
- "C16": ("family reclaim with the allocation seam in quarantine mode: every atomic operation, lock and guarded ReaderGroup dereference is checked against the set of freed blocks; double / invalid frees are reported at the free", "5 C16"),
- "C17": ("seq.teardown (attributed live bytes return to zero after the last handle), seq.churn (100-800 cycles, every fixed handle operating in every cycle, with and without an earlier drop of a non-last handle: plateau oracle), concurrent reclaim.count", "5 C17"),
+ "C16": ("family reclaim with the allocation seam in quarantine mode: every atomic operation, lock and guarded ReaderGroup dereference is checked against the set of freed blocks; double / invalid frees are reported at the free; long stalls anchored at raw dereferences, incl. a leaver thread that holds nothing but the handle it drops", "5 C16"),
+ "C17": ("seq.teardown (attributed live bytes return to zero after the last handle), seq.churn (100-800 cycles, every fixed handle operating in every cycle, with and without an earlier drop of a non-last handle, also with all receivers or all senders gone before the cycles start: plateau oracle), concurrent reclaim.count", "5 C17"),
 }
 NA = {
  "C19": "compile-time trait-bound fact (Send/Sync inference); no schedule, clock, fault or history for a simulator to run - see DESIGN.md section 5 C19",
@@ -49,7 +49,7 @@ def main():
                     "text": "Seeded search over schedules, fault sequences and workloads in a deterministic simulator running the real crate code: " + text + ". A clean batch is evidence, not proof; the level is exploration because the space of interleavings is sampled, not enumerated.",
                     "design_ref": "DESIGN.md section " + ref,
                 },
-                "level_note": "Trusted base: the shim atomics/locks (sequentially consistent, one scheduling point per operation), the shuttle-engine coroutine runtime, the harness oracles and reference model. Assumes SC interleavings at the granularity of the crate's atomic/lock operations; bounds <=3 producers, <=3 streams, <=5 consumers, capacity requests 0..9.",
+                "level_note": "Trusted base: the shim atomics/locks (sequentially consistent; a scheduling point before every operation and, in random subsets of the runs, after every write and after every load / failed CAS / raw dereference), the shuttle-engine coroutine runtime, the harness oracles and reference model. Assumes SC interleavings at the granularity of the crate's atomic/lock operations; bounds <=3 producers, <=3 streams, <=5 consumers, capacity requests 0..9.",
                 "technique": "deterministic simulation with fault injection (seeded schedule/fault search, history oracles, replayable minimised schedules)",
             })
     na = []
